@@ -195,6 +195,8 @@ def parse_contracts(paths):
                     continue
                 problems.append('%s:%d unknown directive @%s' % (p, n, d))
             else:
+                if line.startswith('# ') or line == '#':
+                    continue      # comment line of the contract file (Rust attributes start with `#[`)
                 if block is not None:
                     block[1].append(line)
                 elif line.strip() and not line.lstrip().startswith('#'):
